@@ -1982,6 +1982,15 @@ class subarray : public const_subarray<T, D, ElementPtr, Layout> {
 	constexpr auto mbegin() { return move_iterator{this->begin()}; }
 	constexpr auto mend()   { return move_iterator{this->end()  }; }
 
+	constexpr auto front() const& -> decltype(auto) { return static_cast<const_subarray<T, D, ElementPtr, Layout> const&>(*this).front(); }
+	constexpr auto back()  const& -> decltype(auto) { return static_cast<const_subarray<T, D, ElementPtr, Layout> const&>(*this).back(); }
+
+	constexpr auto front()     && -> decltype(auto) { return *(this->begin_aux_()); }
+	constexpr auto back()      && -> decltype(auto) { return *(this->end_aux_() - 1); }
+
+	constexpr auto front()      & -> decltype(auto) { return *(this->begin_aux_()); }
+	constexpr auto back()       & -> decltype(auto) { return *(this->end_aux_() - 1); }
+
 	using const_subarray<T, D, ElementPtr, Layout>::home;
 	constexpr auto home()     && { return this->home_aux_(); }
 	constexpr auto home()      & { return this->home_aux_(); }
